@@ -132,7 +132,21 @@ fn check_winsorize(c: &WCase, obs: &mut Obs) -> CheckResult {
                     let rel = 64.0 * U * n as f64 * (1.0 + maxabs * maxabs / m2);
                     // ... and the mean itself: its rounding error is relative to the data, not to the
                     // (possibly cancelling) mean
-                    Some((lo, hi, rel * (mean.abs() + p * sd) + 64.0 * U * n as f64 * maxabs + 1e-300))
+                    if maxabs * maxabs / m2 > 1e9 {
+                        // data at a level far above their spread (sub winsorize:level): the general band
+                        // below would swallow the whole series, so the two error sources are kept
+                        // apart - the variance error scales only the k*sd term, the mean's error is
+                        // relative to the data; where even that bound is not small nothing is asserted
+                        // beyond the generic clauses
+                        if rel >= 0.5 {
+                            obs.class("cancellation_band");
+                            return generic_only(c, &got, mname);
+                        }
+                        obs.class("level>3e4sd");
+                        Some((lo, hi, rel * p * sd + 64.0 * U * n as f64 * maxabs + 1e-300))
+                    } else {
+                        Some((lo, hi, rel * (mean.abs() + p * sd) + 64.0 * U * n as f64 * maxabs + 1e-300))
+                    }
                 }
             },
         }
@@ -553,6 +567,25 @@ fn main() {
     )
     .assume("winsorize bounds are compared inside a rounding band around each bound (values within the band may legitimately fall on either side)");
     p.add(sub("winsorize", 30000, 1000000, w_case, check_winsorize));
+    // the same at a level far above the spread (small integer offsets on 1e6 / 4e6): a variance that is
+    // wrongly reported as zero there leaves the sigma method without bounds
+    p.add(sub(
+        "winsorize:level",
+        6000,
+        200000,
+        |t| {
+            w_case(t).prop_map(|mut c| {
+                let level = if c.qb % 2 == 0 { 4.0e6 } else { 1.0e6 };
+                for v in c.x.iter_mut() {
+                    *v = v.map(|x| level + (x.abs() % 16.0).floor());
+                }
+                c.method = 2;
+                c.qa = c.qa % 17;
+                c
+            })
+        },
+        check_winsorize,
+    ));
     p.add(sub("spearman", 15000, 400000, s_case, check_spearman));
     p.add(sub("long_tie_groups", 1, 12, long_tie_case, check_long_ties));
     p.add(sub("half_life", 15000, 400000, h_case, check_half_life));
